@@ -124,6 +124,11 @@ theorem snapshot_is_committed {c0 : Cfg} {s : PSys} (hB : InvB c0 s) (hC : InvC 
 /-- leader commits are never forgotten -/
 theorem cmts_step (s s' : PSys) (e : Event) (h : applyEvent s e = .ok s') : ∀ p ∈ s.cmts, p ∈ s'.cmts := by
   cases e with
+  | read r =>
+    simp only [applyEvent, ok] at h
+    split at h
+    · cases h; exact fun p hp => hp
+    · cases h
   | commitLeader i c cfg q =>
     simp only [applyEvent, ok] at h
     split at h
